@@ -76,3 +76,44 @@ def send_tables(ctx, rule):
             table[v["name"]] = "+".join(sorted(outs)) if outs else "none"
         out[r] = table
     return out
+
+
+def switch_table(ctx, rule):
+    """importing task: handshake sub-command -> MigrationState it installs (by constant propagation over handle_switch).
+    returns ({subcmd name: state name}, body) or None"""
+    F = ctx.F
+    st = find_state_adt(F)
+    cands = [b for b in F.all_bodies(bins=False) if b.kind == "AssocFn" and not b.is_mock() and b.path.startswith("<migration::scan_task::") and "Importing" in b.path and b.path.endswith("::handle_switch")]
+    if st is None or not cands:
+        ctx.lost(rule, "importing handle_switch", "handle_switch of the importing task not found")
+        return None
+    b = cands[0]
+    ctx.analysed(b)
+    sub = None
+    for i, ty in enumerate(b.sig["inputs"] if b.sig else []):
+        if norm(ty).endswith("MgrSubCmd"):
+            sub = i + 1
+    sadt = F.adt("migration::task::MgrSubCmd") or next((a for p_, a in F.adts.items() if p_.endswith("::MgrSubCmd")), None)
+    if sub is None or sadt is None:
+        ctx.lost(rule, "importing handle_switch", "no MgrSubCmd parameter")
+        return None
+    sets = [(bb, t) for bb, t in b.calls() if (callee_of(t) or "").endswith("AtomicMigrationState::set_state")]
+    if not sets:
+        ctx.lost(rule, "importing handle_switch", "no set_state call")
+        return None
+    # the version test must pass: the version comparison is left to the interpreter (TOP -> both branches); only
+    # states installed on executable set_state calls are collected
+    table = {}
+    for vi, v in enumerate(sadt.variants):
+        res = Interp(F, b, Oracle(args={sub: Agg(sadt.path, vi, ())})).run()
+        got = set()
+        for bb, t in sets:
+            if bb in res.exec_blocks:
+                av = res.call_args.get(bb)
+                val = av[1] if av and len(av) > 1 else None
+                if val is not None and val[0] == "agg":
+                    got.add(st.variants[val[2]]["name"])
+                else:
+                    got.add("?")
+        table[v["name"]] = "+".join(sorted(got)) if got else "none"
+    return table, b
